@@ -686,6 +686,11 @@ func (a *Application) transformStreamAndWaitForProxy(
 	// transform stream (blocks until done)
 	transformErr := trans.TransformStreamingResponse(ctx, pipeReader, w, r)
 
+	// The transformation can stop before the proxy has delivered everything (client gone, a line
+	// the scanner rejects). Nobody reads the pipe from here on: close our end so a proxy goroutine
+	// blocked mid-write returns instead of hanging (and us with it, below) for ever.
+	pipeReader.Close()
+
 	// Wait for proxy to complete
 	proxyErr := <-proxyErrChan
 
